@@ -191,8 +191,7 @@ def rel_c01(c):
 
 def rel_c02(c):
     out = []
-    fid = ('F7' if c['dev']['alias'] else
-           'F8' if c['dev']['enumbool'] else None)
+    fid = 'F7' if c['dev']['alias'] else None
     if not c['inv']['MatchesReference']:
         out.append(('model', 'pipeline and declarative reference disagree: '
                     'pipeline %s, reference %s' % (
@@ -214,8 +213,7 @@ def rel_c02(c):
 
 def rel_c03(c):
     out = []
-    fid = ('F7' if c['dev']['alias'] else
-           'F8' if c['dev']['enumbool'] else None)
+    fid = 'F7' if c['dev']['alias'] else None
     if not c['inv']['MatchesReference']:
         out.append(('model', 'pipeline and order-free reference disagree: '
                     'pipeline %s, reference %s' % (
@@ -345,8 +343,7 @@ def rel_c10(c):
 
 def rel_c13(c):
     out = []
-    fid = ('F7' if c['dev']['alias'] else
-           'F8' if c['dev']['enumbool'] else None)
+    fid = 'F7' if c['dev']['alias'] else None
     if not c['inv']['KeyOrderIrrelevant']:
         out.append(('model', 'the reference depends on key order for %s'
                     % json.dumps(c['doc'])[:300], None))
@@ -436,7 +433,7 @@ def rel_c18(c):
             o['text'], json.dumps(o.get('value', o.get('errclass')))[:200],
             oe['text'], json.dumps(oe.get('value', oe.get('errclass')))[:200]),
             fid))
-    elif not c['dev']['enumbool']:
+    else:
         # and both are what the specification predicts for the expanded form
         d = cmp_outcome(ref_case(c), oe)
         if d:
